@@ -27,7 +27,7 @@ Fixpoint monitor_from (hist : list op) (ops : list op) (bs : list obs) : bool :=
       (match o, b with
        | OPush c, _ => push_spec_b hist c b
        | OGet c, BBool x => Bool.eqb x (exists_after hist c)
-       | OFront live l, BDeliver d => zlist_eqb d (filter (fun i => zmem i live) l)
+       | OFront live closing l, BDeliver d => zlist_eqb d (filter (fun i => zmem i live && negb (zmem i closing)) l)
        | ODirect f l, BPush p => push_eqb p [(f, l)]
        | (OAddChannel _ | OAdd _ _ _ | OLeave _ _ _ | ODelete _), BUnit => true
        | _, _ => false
